@@ -12,7 +12,12 @@ rsync -a --exclude .git "${VERIF_REPO:-/repo}/" "$TMP/"
 if ! (cd "$TMP" && git apply --whitespace=nowarn "$PATCH" 2>/dev/null || patch -p1 -s < "$PATCH" >/dev/null 2>&1); then
   echo "PATCH-DOES-NOT-APPLY $PATCH"; exit 0
 fi
-if [ "$1" = "ALL" ]; then set -- $("$VERIF/bin/icecheck" -list | awk '/^C[0-9]+ /{print $1}'); fi
+if [ "$1" = "ALL" ]; then
+  # one load of the patched tree for all claimed properties
+  OUT="$("$VERIF/bin/icecheck" -matrix -repo "$TMP" -verif "$VERIF" 2>&1)"
+  if echo "$OUT" | grep -qE '^C[0-9]+ rc='; then echo "$OUT" | grep -E '^(C[0-9]+ rc=|INFRA)'; else echo "CHECKER-CRASH rc=2 violations=1 $(echo "$OUT" | head -3 | tr '\n' ' ')"; fi
+  exit 0
+fi
 for P in "$@"; do
   OUT="$("$VERIF/bin/icecheck" -property "$P" -tier quick -repo "$TMP" -verif "$VERIF" -nocontrols -noevidence 2>&1)"; RC=$?
   RULES="$(echo "$OUT" | sed -n 's/^  rule=\([A-Z0-9-]*\) status=\([a-z]*\) at \([^ ]*\) in \(.*\)$/\1@\4/p' | sort -u | tr '\n' ' ')"
